@@ -329,6 +329,12 @@ def _do_cut(asm, toks, block, tmpl_line):
                     hits['R5.derive_dropped:' + '+'.join(dropped)] = 1
                 return ('#[derive(%s)]' % ', '.join(keep)) if keep else ''
             text = re.sub(r'#\[derive\(([^)]*)\)\]', repl, text)
+        if kv.get('pubfields'):
+            # visibility has no semantics for any property; Verus treats a datatype with private fields as opaque
+            def pf(mm):
+                hits['R5.field_visibility_widened'] = hits.get('R5.field_visibility_widened', 0) + 1
+                return mm.group(1) + 'pub ' + mm.group(2)
+            text = re.sub(r'(?m)^(\s+)(?:pub\([a-z]+\)\s+)?(?!pub\b)([A-Za-z_][A-Za-z0-9_]*\s*:)', pf, text)
         for tk, lines_, no in secs:
             if tk[0] == 'replace':
                 text = _apply_replace(text, tk, hits, no)
